@@ -167,6 +167,14 @@ type wrapperSpec struct {
 	skipOK    func(p *Path) bool   // success path may omit the statistics call
 	skipWhy   string
 	domain    *Domain
+	// altInner/altArgs: an equivalent inner operation (the unit-weight Add may be performed as AddWithCount(v, 1),
+	// directly or by delegating to the variant's own AddWithCount wrapper, which is executed inline)
+	altInner string
+	altArgs  []func(t *Term) bool
+	// mustSkip: on a success path for which this holds the statistics must NOT be touched (a value of weight 0
+	// must not be folded into min/max)
+	mustSkip    func(p *Path) bool
+	mustSkipWhy string
 }
 
 func isParamN(i int) func(*Term) bool { return func(t *Term) bool { return t.isParam(i) } }
@@ -181,24 +189,33 @@ func checkWrapper(c *Ctx, a *sketchAnchors, w wrapperSpec) int {
 	if !c.mustFunc(w.rule, f, name) {
 		return 0
 	}
-	paths, complete := exec(c, f, w.domain, 1)
+	// a wrapper may delegate to another wrapper of the same variant (Add → AddWithCount(v, 1)): executed inline
+	policy := func(cal *ssa.Function) bool {
+		return inlineNewHelpers(cal) || recvNamed(cal) == a.Exact && cal != f && cal.Synthetic == ""
+	}
+	paths, complete := pathsOf(c.P, f, w.domain, execOpts{MaxVisits: 1, Pure: c.Mod.PureCall, InlineCallee: policy})
+	c.R.count("paths", len(paths))
+	c.R.count("functions_path_analysed", 1)
 	if !complete || len(paths) == 0 {
 		c.R.undecided(w.rule, "paths/"+name, name, c.fpos(f), "path enumeration completes", "no or too many paths")
 		return 0
 	}
-	isInner := func(t *Term) bool {
-		if t == nil || !isMethodCall(t, w.inner) || !strings.Contains(t.Sym, "DDSketch)") || strings.Contains(t.Sym, "WithExact") {
+	isInnerOf := func(t *Term, meth string, args []func(*Term) bool) bool {
+		if t == nil || meth == "" || !isMethodCall(t, meth) || !strings.Contains(t.Sym, "DDSketch)") || strings.Contains(t.Sym, "WithExact") {
 			return false
 		}
-		if len(t.Args) != 1+len(w.innerArgs) || !isRecvField(t.Args[0], a.innerFld) {
+		if len(t.Args) != 1+len(args) || !isRecvField(t.Args[0], a.innerFld) {
 			return false
 		}
-		for i, pr := range w.innerArgs {
+		for i, pr := range args {
 			if !pr(t.Args[1+i]) {
 				return false
 			}
 		}
 		return true
+	}
+	isInner := func(t *Term) bool {
+		return isInnerOf(t, w.inner, w.innerArgs) || isInnerOf(t, w.altInner, w.altArgs)
 	}
 	isStat := func(t *Term) bool {
 		if t == nil || w.stat == "" || !isMethodCall(t, w.stat) || !strings.Contains(t.Sym, "SummaryStatistics)") {
@@ -294,6 +311,8 @@ func checkWrapper(c *Ctx, a *sketchAnchors, w wrapperSpec) int {
 		}
 		retOK := len(p.RetT) == 0 || p.RetNil(len(p.RetT)-1) == 1
 		switch {
+		case nstat >= 1 && w.mustSkip != nil && w.mustSkip(p):
+			c.R.violate(w.rule, key, name, c.fpos(f), exp+"; "+w.mustSkipWhy, fmt.Sprintf("the path admits that case and performs %d statistics call(s): %s", nstat, effectsStr(after)))
 		case nstat == 1 && !other && retOK:
 			c.R.okay(w.rule, key, name, c.fpos(f), exp, "inner ok → "+w.stat+" → nil")
 		case nstat == 0 && !other && retOK && w.skipOK != nil && w.skipOK(p):
@@ -340,8 +359,9 @@ func c13ExactAdd(c *Ctx, a *sketchAnchors) {
 			return ok && set&^(1<<uint(classOfPoint(0))) == 0
 		}, skipWhy: "weight is exactly 0 (a zero-weight Add would move min/max)"})
 	n += checkWrapper(c, a, wrapperSpec{rule: "C13-D1", method: "Add", inner: "Add",
-		innerArgs: []func(*Term) bool{isParamN(1)}, stat: "Add", statArgs: []func(*Term) bool{isParamN(1), isConstS("1")}})
-	c.R.floor("C13-D1", "exact-variant add wrapper paths", n, 5)
+		innerArgs: []func(*Term) bool{isParamN(1)}, stat: "Add", statArgs: []func(*Term) bool{isParamN(1), isConstS("1")},
+		altInner: "AddWithCount", altArgs: []func(*Term) bool{isParamN(1), isConstS("1")}})
+	c.R.floor("C13-D1", "exact-variant add wrapper paths", n, 4) // two fallible wrappers × (error, success)
 }
 
 // D2: quantile argument / emptiness checks.
